@@ -2123,3 +2123,61 @@ Proof.
     destruct (input_present_orig _ _ _ _ Hin) as [_ [HB HC]].
     subst t. destruct comp; cbn; [apply HC; reflexivity | apply HB; reflexivity].
 Qed.
+
+(* ====================================================================== *)
+(* File names                                                                *)
+(* ====================================================================== *)
+Lemma lf_name_cons2 : forall a p r,
+  lf_name (a :: p :: r) = if ((a =? 97) && (p =? 112))%Z then 108%Z :: 102%Z :: lf_name r else a :: lf_name (p :: r).
+Proof. reflexivity. Qed.
+Lemma has_ap_cons2 : forall a p r, has_ap (a :: p :: r) = ((a =? 97) && (p =? 112))%Z || has_ap (p :: r).
+Proof. reflexivity. Qed.
+
+Lemma lf_name_props : forall n s, (length s <= n)%nat ->
+  length (lf_name s) = length s /\
+  (has_ap s = false -> lf_name s = s) /\ (has_ap s = true -> lf_name s <> s).
+Proof.
+  induction n as [|n IH]; intros s Hn.
+  - destruct s; [|cbn in Hn; lia]. cbn. repeat split; auto; discriminate.
+  - destruct s as [|a [|p r]].
+    + cbn. repeat split; auto; discriminate.
+    + cbn. repeat split; auto; discriminate.
+    + rewrite lf_name_cons2, has_ap_cons2. destruct ((a =? 97) && (p =? 112))%Z eqn:E.
+      * destruct (IH r) as [L _]; [cbn in Hn; lia|]. cbn [length]. rewrite L. cbn [orb].
+        split; [reflexivity|]. split; [discriminate|]. intros _ Heq.
+        apply andb_true_iff in E as [Ea _]. apply Z.eqb_eq in Ea. subst a. inversion Heq.
+      * destruct (IH (p :: r)) as [L [F T]]; [cbn in Hn; cbn; lia|]. cbn [orb].
+        split; [cbn [length]; rewrite L; reflexivity|]. split.
+        -- intros H. rewrite (F H). reflexivity.
+        -- intros H Heq. inversion Heq as [Heq']. exact (T H Heq').
+Qed.
+
+Lemma lf_name_length : forall s, length (lf_name s) = length s.
+Proof. intros s. apply (lf_name_props (length s) s (le_n _)). Qed.
+Lemma lf_name_alias_iff : forall s, lf_name s = s <-> has_ap s = false.
+Proof.
+  intros s. destruct (lf_name_props (length s) s (le_n _)) as [_ [F T]]. split.
+  - intros H. destruct (has_ap s) eqn:E; [exfalso; exact (T eq_refl H) | reflexivity].
+  - exact F.
+Qed.
+
+Lemma app_eq_length : forall (A : Type) (l1 l2 x y : list A),
+  l1 ++ x = l2 ++ y -> length l1 = length l2 -> l1 = l2.
+Proof.
+  intros A. induction l1 as [|a l1 IH]; intros l2 x y H L; destruct l2 as [|b l2]; cbn in *; try lia; auto.
+  inversion H; subst. f_equal. eapply IH; eauto.
+Qed.
+
+(* whatever is appended after the renamed part (extension, UUID, suffix swapped by with_suffix):
+   an lf output path never equals a path of the file given, as soon as its name contains "ap" *)
+Lemma lf_name_never_aliases : forall stem e e', has_ap stem = true -> lf_name stem ++ e' <> stem ++ e.
+Proof.
+  intros stem e e' H Heq. apply app_eq_length in Heq; [|apply lf_name_length].
+  apply lf_name_alias_iff in Heq. congruence.
+Qed.
+
+Lemma non_np2_noop : forall v n w fs r k,
+  kind_of_version v = NP1 -> r_target r <> TShank k -> input_state NP1 n fs (r_target r) = Present ->
+  out_outcome (run_once (kind_of_version v) n w fs r) = Status (-1) /\
+  (forall p, out_fs (run_once (kind_of_version v) n w fs r) p = fs p).
+Proof. intros v n w fs r k Hv. rewrite Hv. apply np1_noop. Qed.
